@@ -194,6 +194,21 @@ func runC09(c *Ctx) {
 			pInv = 20
 		}
 		h := randHistory(r, 40, pInv)
+		if r.Chance(1, 4) {
+			// An unrelated earlier call on a printer of the same pool: the same kind of
+			// script run under a Safe()/Unsafe() wrapper (its result is C06's business,
+			// not asserted here). The histories below must not be affected by it.
+			func() {
+				defer func() { recover() }()
+				pre := randHistory(r, 6, 0)
+				if r.Bool() {
+					_ = redact.Sprint(redact.Safe(histFormatter{pre}))
+				} else {
+					_ = redact.Sprintf("%v|%v", redact.Unsafe(histFormatter{pre}), redact.Safe(histFormatter{pre}))
+				}
+			}()
+			w.Count("histories_after_wrapped_script", 1)
+		}
 		c09check(w, h)
 		if historyNontrivial(h) {
 			w.Nontrivial(hashStr(historyString(h)))
